@@ -19,7 +19,7 @@ RULE = ('round trip: 1-3 cookies (names over the legal cookie-name alphabet; pla
         'insertion of non-alphabet / padding / whitespace bytes at every position, signature swapped with another cookie, other secret, other name, the value re-presented under a shorter / longer name with the moved characters spliced into payload or signature, signatures made with related keys (empty, NUL runs, prefixes / suffixes / single bytes / case variants of the secret), '
         'appended bytes, and canary payloads (pickle whose __reduce__ calls a recorder) under wrong / missing / unkeyed signatures. Oracle: '
         'untampered -> value equal; a presented value that is not a string signed with that secret for that name -> default, and neither the '
-        'pickle.loads proxy nor a canary fired. Object graphs: signed values with shared and cyclic references (fixed shapes + generated graphs of 1-4 containers) must read back with the same shape (containers numbered in visiting order). Concurrency: a thread signing with secret NEW against a thread verifying a cookie signed with OLD under NEW (and a genuine one), every single-preemption schedule under the deterministic scheduler. Non-trivial: round trip = value with a character outside the legal-unquoted set or signed nested '
+        'pickle.loads proxy nor a canary fired. Values that are or refer to importable objects (os.stat_result, socket constants, functions and builtins pickled by reference, datetime, Decimal, ...) must read back equal. A response copied with copy() and the same names set again on the other object still emits its own values. Object graphs: signed values with shared and cyclic references (fixed shapes + generated graphs of 1-4 containers) must read back with the same shape (containers numbered in visiting order). Concurrency: a thread signing with secret NEW against a thread verifying a cookie signed with OLD under NEW (and a genuine one), every single-preemption schedule under the deterministic scheduler. Non-trivial: round trip = value with a character outside the legal-unquoted set or signed nested '
         'data; tamper = every distinct (cookie, tampered string) pair.')
 ASSUMPTIONS = ['the browser returns name=value exactly as emitted (bytes of the header viewed as Latin-1)',
                'empty plain values are outside the domain ("" is the deletion marker of this API)',
@@ -95,7 +95,7 @@ def rt_case(draw):
         else:
             wide = draw(st.integers(0, 9)) == 0
             cookies.append({'name': n, 'secret': None, 'value': draw(PLAIN_WIDE if wide else PLAIN)})
-    return {'cookies': cookies, 'status': draw(st.sampled_from([None, None, None, 201, 204, 304, 304, 404, 500])), 'via': draw(st.sampled_from(['response', 'response', 'returned', 'raised'])),
+    return {'cookies': cookies, 'status': draw(st.sampled_from([None, None, None, 201, 204, 304, 304, 404, 500])), 'via': draw(st.sampled_from(['response', 'response', 'returned', 'raised', 'copied', 'copy_returned'])),
             'prime': draw(st.sampled_from([None, None, 'zz=1', names[0] + '=stale', names[0] + '="!bm9wZQ==?bm9wZQ=="']))}
 
 
@@ -107,12 +107,27 @@ def set_and_collect(cookies, status=None, via='response'):
     app = ombott.Ombott()
 
     def h():
-        target = app.response if via == 'response' else ombott.HTTPResponse('body', status or 200)
+        target = app.response if via in ('response', 'copied', 'copy_returned') else ombott.HTTPResponse('body', status or 200)
         for c in cookies:
             if c['secret'] is not None:
                 target.set_cookie(c['name'], from_plain(c['data']), secret=c['secret'])
             else:
                 target.set_cookie(c['name'], c['value'])
+        if via in ('copied', 'copy_returned'):
+            # the response is copied (what redirect() does); afterwards the SAME names are set again on the other object
+            if status:
+                app.response.status = status
+            c = app.response.copy(cls=ombott.HTTPResponse)
+            other = c if via == 'copied' else app.response
+            for cc in cookies:
+                if cc['secret'] is not None:
+                    other.set_cookie(cc['name'], ['set', 'again', 'on the other object'], secret=cc['secret'])
+                else:
+                    other.set_cookie(cc['name'], 'set-again-on-the-other-object')
+            if via == 'copied':
+                return 'ok'
+            c.body = 'body'
+            return c
         if via == 'response':
             if status:
                 app.response.status = status
@@ -561,6 +576,44 @@ def check_graph(ctx, case):
         ctx.nontrivial('graph:' + repr(case['graph']))
 
 
+# ----------------------------------------------------------------- picklable values that are (or refer to) importable objects
+def _glob_table():
+    import collections, datetime, decimal, fractions, os, socket, uuid, pathlib, enum, re as _re
+    return {
+        'os.stat_result': lambda: os.stat_result(tuple(range(10))), 'os.terminal_size': lambda: os.terminal_size((80, 24)), 'socket.AF_INET': lambda: socket.AF_INET,
+        'socket.SOCK_STREAM': lambda: socket.SOCK_STREAM, 'os.getcwd': lambda: os.getcwd, 'os.path.join': lambda: os.path.join, 'dict.fromkeys': lambda: dict.fromkeys,
+        'getattr': lambda: getattr, 'len': lambda: len, 'sorted': lambda: sorted, 'open': lambda: open, 'int': lambda: int, 'ValueError': lambda: ValueError,
+        'ValueError()': lambda: ('exc', ValueError('x').args), 'datetime': lambda: datetime.datetime(2001, 9, 9, 1, 46, 40), 'timedelta': lambda: datetime.timedelta(3, 7),
+        'Decimal': lambda: decimal.Decimal('1.50'), 'Fraction': lambda: fractions.Fraction(3, 7), 'OrderedDict': lambda: collections.OrderedDict([('b', 1), ('a', 2)]),
+        'deque': lambda: collections.deque([1, 2], maxlen=5), 'Counter': lambda: collections.Counter('aab'), 'UUID': lambda: uuid.UUID(int=5), 'PurePosixPath': lambda: pathlib.PurePosixPath('a/b'),
+        'complex': lambda: complex(1, -2), 'range': lambda: range(1, 9, 2), 'frozenset': lambda: frozenset({1, 'a'}), 'bytearray': lambda: bytearray(b'ab'), 'slice': lambda: slice(1, 5, 2),
+        're.I': lambda: _re.I, 'nested': lambda: {'k': [socket.AF_INET, os.terminal_size((1, 2)), {'f': dict.fromkeys}]}, 'sys.maxsize': lambda: __import__('sys').maxsize,
+        'subprocess.CompletedProcess': lambda: __import__('subprocess').CompletedProcess(['a'], 0), 'shutil-usage': lambda: __import__('shutil').disk_usage.__class__.__name__,
+    }
+
+
+def check_global(ctx, case):
+    value = _glob_table()[case['global']]()
+    try:
+        pickle.loads(pickle.dumps(value, -1))
+    except Exception:
+        ctx.exclude('value_not_picklable_on_this_interpreter')
+        return
+    import ombott
+    app = ombott.Ombott()
+    app.route('/set', callback=lambda: (app.response.set_cookie('g', value, secret=case['secret']), 'ok')[1])
+    r = call_app(app, make_environ('GET', '/set'))
+    if r.escaped is not None or r.code != 200:
+        raise CheckFailure(f'setting a signed cookie holding {case["global"]} failed: {r.status!r} {r.errors[-400:]}')
+    (jar, val), = read_back(r.header_all('Set-Cookie')[0], [('g', case['secret'])])
+    if val == SENTINEL:
+        raise CheckFailure(f'signed cookie holding the picklable value {case["global"]} ({value!r}) reads as absent with the right secret')
+    if type(val) is not type(value) or not (val == value or repr(val) == repr(value)):
+        raise CheckFailure(f'signed cookie holding {case["global"]}: read back {val!r}, set {value!r}')
+    ctx.evals += 1
+    ctx.nontrivial('global:' + case['global'])
+
+
 def witness_k15(ctx):
     """Pinned witness of open finding K15 (plain cookie above U+00FF)."""
     c = [{'name': 'w', 'secret': None, 'value': 'Ω'}]
@@ -576,13 +629,13 @@ def witness_k15(ctx):
 
 def run(ctx):
     for name, case in load_corpus(ID):
-        ctx.guarded(check_sequence if 'sequence' in case else check_graph if 'graph' in case else check_threaded if 'threaded' in case else (check_tamper if 'other_secret' in case else check_roundtrip), case)
+        ctx.guarded(check_sequence if 'sequence' in case else check_graph if 'graph' in case else check_global if 'global' in case else check_threaded if 'threaded' in case else (check_tamper if 'other_secret' in case else check_roundtrip), case)
         ctx.count('corpus')
     if ctx.shard == 0:
         ctx.guarded(lambda c, _: witness_k15(c), {'witness': 'K15'})
         # a plain and a signed cookie under every status / way of answering, and on a request object that was asked before its Cookie header was replaced
         for status in (None, 200, 201, 204, 206, 301, 304, 400, 404, 500):
-            for via in ('response', 'returned', 'raised'):
+            for via in ('response', 'returned', 'raised', 'copied', 'copy_returned'):
                 for prime in (None, 'p=old; s="!bm9wZQ==?bm9wZQ=="'):
                     ctx.guarded(check_roundtrip, {'cookies': [{'name': 'p', 'secret': None, 'value': 'plain v'}, {'name': 's', 'secret': 'k', 'data': ['u', 1]}],
                                                   'status': status, 'via': via, 'prime': prime})
@@ -615,6 +668,9 @@ def run(ctx):
         for gname, g in FIXED_GRAPHS.items():
             ctx.guarded(check_graph, {'graph': g, 'secret': 's3cret'})
         ctx.count('fixed_object_graphs', len(FIXED_GRAPHS))
+        for gname in sorted(_glob_table()):
+            ctx.guarded(check_global, {'global': gname, 'secret': 's3cret'})
+        ctx.count('importable_object_values', len(_glob_table()))
     ctx.hyp(st.fixed_dictionaries({'graph': GRAPH, 'secret': SECRET}), check_graph, 150 if ctx.tier == 'quick' else 3000, label='graph')
     if ctx.shard == 0:
         for old, new in (('old-secret', 'new-secret'), ('k', 'K'), ('é', 'e')):
@@ -630,4 +686,6 @@ def replay(ctx, case):
         return check_sequence(ctx, case)
     if 'graph' in case:
         return check_graph(ctx, case)
+    if 'global' in case:
+        return check_global(ctx, case)
     (check_tamper if 'other_secret' in case else check_roundtrip)(ctx, case)
